@@ -194,3 +194,23 @@ package spynode
 //@   assert removes_first_match_only at afterloop 1 : [C08] (len(node.pushDataHashes) == sinceloop(old(len(node.pushDataHashes))) && forall(k, 0, len(node.pushDataHashes), node.pushDataHashes[k] != hash) && sinceloop(forall(k, 0, len(node.pushDataHashes), node.pushDataHashes[k] == old(node.pushDataHashes[k]))))
 //@         || (len(node.pushDataHashes) == sinceloop(old(len(node.pushDataHashes))) - 1 && sinceloop(old(node.pushDataHashes[_i])) == hash
 //@               && sinceloop(forall(k, 0, _i, node.pushDataHashes[k] == old(node.pushDataHashes[k]))) && sinceloop(forall(k, _i, len(node.pushDataHashes), node.pushDataHashes[k] == old(node.pushDataHashes[k+1]))))
+
+// The refeeder path: a block that is fed again to the handlers. Same alignment of proof requests
+// and deliveries as ProcessBlock; a transaction without a stored record is delivered with a new
+// record carrying its proof, one with a stored record is delivered as stored.
+//@ func (*Node).provideBlock
+//@   serves C04
+//@   opt nomonitor = 1
+//@   opt partial = 1
+//@   opt abstract = SaveTxState FetchTxState fetchSpentOutputs
+//@   requires node != nil && node.txs != nil && handlersstorage.InvU(node.txs) && !held(node.txs.blockLock) && !held(node.txs.unconfirmedLock)
+//@   loop * invariant node != nil && same(node.txs, node.store) && handlersstorage.InvU(node.txs) && !held(node.txs.blockLock) && !held(node.txs.unconfirmedLock)
+//@   loop 0 invariant node != nil && same(node.txs, node.store) && handlersstorage.InvU(node.txs) && !held(node.txs.blockLock) && !held(node.txs.unconfirmedLock) && merkleTree != nil && len(txs) == mtnreq(merkleTree) && mtnleaf(merkleTree) >= 0
+//@   loop 0 invariant forall(k, 0, len(txs), txs[k] != nil)
+//@   loop 0 invariant forall(k, 0, mtnreq(merkleTree), mtreq(merkleTree, k) == TxHashOf(txs[k]))
+//@   loop 0 invariant forall(k, 0, mtnreq(merkleTree), mtregleaf(merkleTree, k) < mtnleaf(merkleTree))
+//@   loop 2 invariant node != nil && same(node.txs, node.store) && 0 <= _i && _i <= len(txs) && len(merkleProofs) == len(txs) && merkleRootHash == h.MerkleRoot && sinceloop(same(h))
+//@   loop 2 invariant forall(k, 0, len(txs), txs[k] != nil && merkleProofs[k] != nil && ProofTx(merkleProofs[k]) == TxHashOf(txs[k]) && ProofRoot(merkleProofs[k]) == merkleRootHash)
+//@   loop 3 invariant sinceloop(same(txState.State, txState.Tx)) && node != nil && same(node.txs, node.store)
+//@   assert refeed_delivers_new_record at call HandleTx : [C04] err != nil ==> arg2 != nil && arg2.Tx == txs[i] && arg2.State.UnconfirmedDepth == 0 && converted(arg2.State.MerkleProof, merkleProofs[i], h)
+//@        && ProofTx(merkleProofs[i]) == TxHashOf(txs[i]) && ProofRoot(merkleProofs[i]) == h.MerkleRoot
